@@ -193,4 +193,26 @@ CLAIMS = {
     note="Trusted: serde/serde_json/ryu/bincode/chrono/ndarray implementations (validated by byte comparison and round trips "
          "only); Lean kernel; the wire-format model mirrors observed bytes.",
     technique="Lean 4 proof of the wire-format round trip + byte-exact differential correspondence + model-free round trips"),
+ "C20": dict(
+    text="Lean 4 theorems over a model in which every panic site of the implementation is an explicit marker: "
+         "add_days / add_bus_days / lag return a value (or the documented error) for EVERY day count (C20_add_days_total, "
+         "C20_add_bus_days_total, C20_lag_total, C20_lag_i8); add_months for every offset, date and roll day 1..31 / eom / "
+         "som / imm / unspecified (C20_add_months_total, using ofDay_bounds); adjustment returns a date whenever an "
+         "eligible day is within reach (C20_adjust_total). Every validating constructor returns an error or a value with "
+         "its shape invariants (C20_dual_try_new, C20_dual2_try_new, C20_ccy_try_new, C20_fxpair_try_new, "
+         "C20_named_try_new, C20_fxrates_try_new, C20_csolve). Loading: for EVERY JSON tree the tagged entry point returns "
+         "an error or a value whose shape invariants hold, with no abort path (C20_load_tagged and the per-type "
+         "C20_load_*), over a Lean model of serde's derived visitors, ndarray's visitor and the validating data models. "
+         "The correspondence run executes every call of the real code under catch_unwind (JSON loading in a worker "
+         "process, so an abort is an observed outcome) and compares outcome and shape with the model; a model-free "
+         "oracle rejects any panic/abort and any returned value that breaks a shape invariant. The run exposed seven "
+         "genuine defects (abort on bad NamedCal/FXRates documents, panic on an empty currency list, csolve panic on "
+         "singular systems, unvalidated Dual/Dual2, Ccy/FXPair and PPSpline documents), all repaired (known_findings.json). "
+         "PARTIAL: Curve documents are not modelled (oracle only); termination of the adjustment loops is under the "
+         "hypothesis that a business day is within `fuel` days (false only for a calendar with no working weekday).",
+    design_ref="DESIGN.md §3 C20",
+    note="Trusted: Lean kernel; the hand-written model's placement of panic markers (validated by catch_unwind on every "
+         "call); the driver's JSON tokenizer; chrono/serde_json/ndarray themselves. Rust's Unicode lower-casing modelled "
+         "as ASCII.",
+    technique="Lean 4 proof (totality and shape invariants over every input / every JSON tree) + differential correspondence under catch_unwind and process isolation + model-free oracle"),
 }
